@@ -22,6 +22,8 @@ CONCEPTS = ["hand", "Foot", "eye", "nose", "Sun", "foot", "Eye"]
 CONS = ["p", "t", "k", "b", "d", "g", "m", "n", "s", "z", "l", "r", "h", "j", "w", "tʰ", "ts", "ʃ", "ŋ", "x"]
 VOWS = ["a", "e", "i", "o", "u", "aː", "ə"]
 GRID = [F(k, 8) for k in range(0, 9)]
+SGRID = [F(0), F(1, 32), F(1, 16), F(3, 32), F(1, 8), F(1, 4), F(3, 8), F(1, 2), F(5, 8), F(3, 4), F(7, 8), F(1)]   # stub values
+SAME_CLASS = [("t", "d"), ("p", "b"), ("k", "g"), ("s", "z"), ("a", "e"), ("o", "u"), ("i", "e"), ("m", "n"), ("a", "ə")]
 T_TURCHIN = [F(0), F(3, 10), F(1, 2), F(99, 100), F(1), F(3, 2), F(-1, 10), F(45, 100)]
 T_EDIT = [F(0), F(1, 4), F(1, 3), F(1, 2), F(2, 3), F(3, 4), F(1), F(3, 10), F(45, 100), F(55, 100), F(2, 5), F(3, 5),
           F(1, 5), F(-1, 4), F(5, 4)]
@@ -64,9 +66,15 @@ def gen_case(rng, methods=METHODS, max_lang=5, max_conc=5):
         r = rng.random()
         if r < 0.45:
             w = list(rng.choice(pool))                          # duplicate words
-        elif r < 0.65:
+        elif r < 0.55:
             w = list(rng.choice(pool))
             w[rng.randrange(len(w))] = rng.choice(CONS + VOWS)  # near-duplicates
+        elif r < 0.7:
+            w = list(rng.choice(pool))                          # near-duplicates within a sound class:
+            swaps = [(k, b if x == a else a) for k, x in enumerate(w) for a, b in SAME_CLASS if x in (a, b)]
+            if swaps:                                           # distance 0 or tiny for sca / lexstat
+                k, y = rng.choice(swaps)
+                w[k] = y
         else:
             w = gen_word(rng)
         rows.append([i, l, c, w])
@@ -80,13 +88,21 @@ def gen_case(rng, methods=METHODS, max_lang=5, max_conc=5):
         if method == "edit-dist":
             return rng.choice(T_EDIT)
         if method == "stub":
-            return rng.choice(GRID + [F(3, 10), F(45, 100), F(-1, 8), F(9, 8)])
+            return rng.choice(GRID + [F(3, 10), F(45, 100), F(-1, 8), F(9, 8), F(1, 16), F(1, 32)])
         if c < 0.4:
             return "entry:%d" % rng.randrange(1000)             # a threshold equal to a recorded distance
         return rng.choice(T_SCA)
     t1, t2 = thr(), thr()
+    int_zero = rng.random() < 0.5
+    if rng.random() < 0.25:
+        # a legitimate threshold of exactly 0 ("identical only"), paired with a small second threshold
+        t1 = F(0)
+        small = {"turchin": [F(0), F(1, 100), F(3, 10)],
+                 "edit-dist": [F(0), F(1, 10), F(1, 5), F(1, 4), F(1, 3)],
+                 "stub": [F(0), F(1, 50), F(1, 32), F(1, 16), F(1, 10), F(1, 8)]}
+        t2 = rng.choice(small.get(method, [F(0), F(1, 50), F(1, 20), F(1, 10), "minpos:0", "minpos:0", "minpos:1"]))
     return {"method": method, "linkage": linkage, "t1": t1, "t2": t2, "rows": rows,
-            "seed": rng.randrange(1 << 30)}
+            "seed": rng.randrange(1 << 30), "int_zero": int_zero}
 
 
 def exhaustive_cases():
@@ -111,7 +127,8 @@ def exhaustive_cases():
         for method in ("turchin", "edit-dist"):
             for linkage in LINKAGES:
                 for t1, t2 in pairs[method]:
-                    yield {"method": method, "linkage": linkage, "t1": t1, "t2": t2, "rows": rows, "seed": 0}
+                    yield {"method": method, "linkage": linkage, "t1": t1, "t2": t2, "rows": rows, "seed": 0,
+                           "int_zero": len(rows) % 2 == 1}
 
 
 # ---------------------------------------------------------------------------
@@ -146,7 +163,7 @@ def lev(a, b):
 
 
 def stub_value(seed, a, b):
-    return float(GRID[zlib.crc32(("%d/%d/%d" % (seed, a, b)).encode()) % len(GRID)])
+    return float(SGRID[zlib.crc32(("%d/%d/%d" % (seed, a, b)).encode()) % len(SGRID)])
 
 
 def certify_upgma(fm, em, ft, et):
@@ -232,15 +249,22 @@ def run_impl(case):
         vals = sorted(set(dist.values()))
         ts = []
         for t in (case["t1"], case["t2"]):
-            if isinstance(t, str):                              # "entry:k"
-                k = int(t.split(":")[1])
-                t = F(vals[k % len(vals)]) if vals else F(1, 2)
+            if isinstance(t, str):                              # "entry:k" / "minpos:k"
+                kind, k = t.split(":")
+                k = int(k)
+                pos = [v for v in vals if v > 0]
+                if kind == "minpos":                            # the k-th smallest positive recorded distance
+                    t = F(pos[min(k, len(pos) - 1)]) if pos else F(1, 2)
+                else:
+                    t = F(vals[k % len(vals)]) if vals else F(1, 2)
             ts.append(t)
         ts.sort()
         outs = []
         for n, t in enumerate(ts):
             del mats[:]
-            lex.cluster(method=real, cluster_method=case["linkage"], threshold=float(t), ref="cog%d" % n)
+            # a threshold of 0 is passed as the int 0 or the float 0.0 (both are legitimate and falsy)
+            tv = 0 if (t == 0 and case.get("int_zero")) else float(t)
+            lex.cluster(method=real, cluster_method=case["linkage"], threshold=tv, ref="cog%d" % n)
             d2 = rec.pop("cur", {})
             if d2 != dist:
                 raise AssertionError("the word-distance function is not a function of the pair: %r vs %r" % (d2, dist))
@@ -340,7 +364,7 @@ def jsonable(case, res=None):
 def from_json(c):
     case = dict(c)
     for k in ("t1", "t2"):
-        case[k] = c[k] if c[k].startswith("entry:") else F(c[k])
+        case[k] = c[k] if c[k].startswith(("entry:", "minpos:")) else F(c[k])
     case["rows"] = [[r[0], r[1], r[2], list(r[3])] for r in c["rows"]]
     case.pop("impl", None)
     return case
@@ -388,6 +412,8 @@ def classify(case, res):
            "rows<=5" if n <= 5 else "rows<=12" if n <= 12 else "rows>12",
            "concepts=%d" % res["nconcepts"],
            "exact" if res["exact"] else "upgma-not-certified"]
+    if F(res["t"][0]) == 0:
+        out.append("t1=0(int)" if case.get("int_zero") else "t1=0.0")
     if any(s >= 2 for s in res["sizes"]):
         out.append("has-multiword-concept")
     cells = {}
